@@ -159,4 +159,128 @@ Section RA.
       rewrite ?M1, ?M5, ?M6, ?E1, ?E2, ?E3, ?E4, ?E5, ?E6, ?E7, ?E8, ?E9; try assumption.
     intros sr Hsr. rewrite Hc, He. apply ra_ie0, Hsr.
   Qed.
+
+  (* the observer moves on by a call that is neither a request write, a cancel write nor a close *)
+  Lemma close_called_rec_call m c :
+    m_close_called (rec_call m c) = match c with CClose _ => true | _ => m_close_called m end.
+  Proof. destruct c as [x|[id' dl tc b|id' tc] x|x|x|[x| | |]]; reflexivity. Qed.
+
+  Lemma RA_rec_mono m s c :
+    sent_of m c = [] -> (forall r, c <> CClose r) -> RA m s -> RA (rec_call m c) s.
+  Proof.
+    intros Es Hc []. constructor; rewrite ?rec_call_sent, ?Es, ?app_nil_r, ?rec_call_polled; try assumption.
+    - intros sr Hsr. destruct (ra_ie0 sr Hsr) as [H|[H|[H|H]]]; [tauto| |right; right; left; apply ended_rec_call, H|tauto].
+      right; left. rewrite cancelled_rec_call, H. reflexivity.
+    - rewrite close_called_rec_call. destruct c; try assumption. exfalso. eapply Hc; reflexivity.
+  Qed.
+
+  Lemma RA_rec_close m s r :
+    senders s = 0%nat -> queue s = [] -> cancels s = [] -> RA m s -> RA (rec_call m (CClose r)) s.
+  Proof.
+    intros H1 H2 H3 []. constructor; try assumption.
+    - intros sr Hsr. destruct (ra_ie0 sr Hsr) as [H|[H|[H|H]]]; [tauto|tauto| |tauto].
+      right; right; left. apply (ended_rec_call m (CClose r)), H.
+    - intros _. auto.
+  Qed.
+
+  (* the model moves on, losing (not gaining) tracked state *)
+  Definition calls_ok s s' : Prop :=
+    forall i c', nth_error (calls s') i = Some c' ->
+      exists c, nth_error (calls s) i = Some c /\ c_id c' = c_id c /\
+                (c_phase c' = c_phase c \/ (livep (c_phase c) = true /\ livep (c_phase c') = true)).
+
+  Lemma calls_ok_eq s s' : calls s' = calls s -> calls_ok s s'.
+  Proof. intros E i c' H. rewrite E in H. exists c'. auto. Qed.
+  Lemma calls_ok_trans s1 s2 s3 : calls_ok s1 s2 -> calls_ok s2 s3 -> calls_ok s1 s3.
+  Proof.
+    intros H1 H2 i c3 H. destruct (H2 i c3 H) as (c2 & Hc2 & E2 & P2).
+    destruct (H1 i c2 Hc2) as (c1 & Hc1 & E1 & P1). exists c1. split; [exact Hc1|]. split; [congruence|].
+    destruct P2 as [P2|[P2 P2']]; destruct P1 as [P1|[P1 P1']].
+    - left; congruence.
+    - right. rewrite P2. auto.
+    - right. rewrite <- P1. auto.
+    - right. auto.
+  Qed.
+
+  Lemma RA_shrink m s s' :
+    calls_ok s s' -> (senders s = 0%nat -> senders s' = 0%nat) ->
+    (queue s = [] -> queue s' = []) -> (cancels s = [] -> cancels s' = []) ->
+    (forall id, In id (map fst (inflight s')) -> In id (map fst (inflight s))) ->
+    (forall id, In id (cancels s) -> In id (map fst (inflight s')) -> In id (cancels s')) ->
+    (forall sr, In sr (m_sent m) -> In (s_id sr) (map fst (inflight s)) ->
+        In (s_id sr) (map fst (inflight s')) \/ cancelled m (s_id sr) = true \/ ended m sr = true) ->
+    (forall x, In x (timers s') -> In x (timers s)) ->
+    (forall id, sl_rx_closed (slotv (slots s) id) = true -> sl_rx_closed (slotv (slots s') id) = true) ->
+    terminal s' = terminal s -> dropped s' = dropped s -> RA m s -> RA m s'.
+  Proof.
+    intros Hc Hs Hq Hcn Hif Hcan Hie Hti Hsl Et Ed []. constructor; rewrite ?Et, ?Ed.
+    - intros sr Hsr. destruct (ra_ie0 sr Hsr) as [H|H]; [|tauto].
+      destruct (Hie sr Hsr H) as [H'|[H'|H']]; tauto.
+    - intros i c' Hc' Hp Hpol Hin. destruct (Hc i c' Hc') as (c & Hc0 & Eid & Pp).
+      assert (Hp0 : c_phase c = PGone).
+      { destruct Pp as [Pp|[_ Pp]]; [congruence|rewrite Hp in Pp; discriminate]. }
+      rewrite Eid in *. destruct (ra_ac0 i c Hc0 Hp0 Hpol (Hif _ Hin)) as [H|H]; [|tauto].
+      left. apply Hcan; assumption.
+    - intros i c' Hc' Hp Hpol. destruct (Hc i c' Hc') as (c & Hc0 & Eid & Pp).
+      rewrite Eid. apply Hsl. apply (ra_rxc0 i c Hc0); [|exact Hpol].
+      destruct Pp as [Pp|[_ Pp]]; [rewrite <- Pp; exact Hp|].
+      destruct Hp as [Hp|Hp]; rewrite Hp in Pp; discriminate.
+    - intros id w sr Hin. apply ra_ti0, Hti, Hin.
+    - intro H. destruct (ra_cc0 H) as (H1 & H2 & H3). auto.
+  Qed.
+
+  (* ---------------------------------------------------------------- the request queue *)
+  Lemma live_phase_livep p : livep p = true -> live_phase p = true.
+  Proof. destruct p; try discriminate; reflexivity. Qed.
+
+  Lemma filter_live_phase_calls l i p c :
+    nth_error l i = Some c -> live_phase (c_phase c) = live_phase p ->
+    length (filter (fun c => live_phase (c_phase c)) (phase_calls l i p)) =
+    length (filter (fun c => live_phase (c_phase c)) l).
+  Proof.
+    unfold phase_calls. intros H Hp. rewrite H. clear - H Hp. revert i H.
+    induction l as [|y r IH]; intros [|i] H; cbn in *; try discriminate.
+    - injection H as ->. cbn [c_phase with_phase]. rewrite <- Hp. reflexivity.
+    - destruct (live_phase (c_phase y)); cbn; rewrite (IH i H); reflexivity.
+  Qed.
+
+  Lemma release_permit_calls s :
+    winv s -> calls_ok s (release_permit s) /\ senders (release_permit s) = senders s.
+  Proof.
+    intros [Wa _]. unfold release_permit. destruct (waiters s) as [|w r] eqn:Ew.
+    - split; [apply calls_ok_eq; reflexivity|reflexivity].
+    - destruct (Wa w) as (c & Hc & Hp); [rewrite Ew; left; reflexivity|].
+      rewrite set_phase_alt. split.
+      + intros i c' H. cbn [calls upd_calls upd_q] in H. apply nth_error_phase_calls_inv in H.
+        destruct H as [[-> (c0 & Hc0 & ->)]|[Hn H]].
+        * exists c0. split; [exact Hc0|]. split; [reflexivity|]. right.
+          assert (c0 = c) by congruence. subst c0. rewrite Hp. split; reflexivity.
+        * exists c'. auto.
+      + unfold senders. cbn [handles calls upd_calls upd_q]. f_equal.
+        apply (filter_live_phase_calls _ _ _ c Hc). rewrite Hp. reflexivity.
+  Qed.
+
+  Lemma q_pop_fields s q s1 :
+    q_poll_recv s = (RvSome q, s1) -> winv s ->
+    queue s = q :: queue s1 /\ calls_ok s s1 /\ senders s1 = senders s /\
+    inflight s1 = inflight s /\ timers s1 = timers s /\ slots s1 = slots s /\ cancels s1 = cancels s /\
+    terminal s1 = terminal s /\ dropped s1 = dropped s /\ now s1 = now s.
+  Proof.
+    unfold q_poll_recv. destruct (queue s) as [|y r] eqn:Eq;
+      [destruct (Nat.eqb _ _); [discriminate|]; destruct (_ && _); discriminate|].
+    intros [= <- <-] W.
+    set (s0 := upd_q s (permits s) r (waiters s) (rx_closed s)).
+    assert (W0 : winv s0) by (eapply winv_frame; [exact W|reflexivity..]).
+    destruct (release_permit_calls s0 W0) as [C S].
+    pose proof (IFrame_release_permit s0) as F.
+    assert (G : queue (release_permit s0) = r /\ inflight (release_permit s0) = inflight s /\
+                timers (release_permit s0) = timers s /\ slots (release_permit s0) = slots s /\
+                cancels (release_permit s0) = cancels s).
+    { unfold release_permit. destruct (waiters s0); [repeat split|]. rewrite set_phase_alt. repeat split. }
+    destruct G as (G1 & G2 & G3 & G4 & G5).
+    rewrite G1, G2, G3, G4, G5. repeat split; try assumption.
+    - apply (pf_terminal _ _ (if_p _ _ F)).
+    - apply (pf_dropped _ _ (if_p _ _ F)).
+    - apply (pf_now _ _ (if_p _ _ F)).
+  Qed.
 End RA.
